@@ -395,10 +395,18 @@ def r5_walker_wiring(ctx):
     yield Ob('map_walker:walk_tree.forceWalkCounterToLoopStart resets below the loop and counts loop and first segment', ok, ctx.floc(fn), '' if ok else 'calls %s' % seq)
 
 
+def r6_shared_recognisers(ctx):
+    """a conformant value must be accepted by its recogniser: C13.R1 (languages), R3 (field atoms), R4 (lengths) (shared)"""
+    from . import c13
+    for fn in (c13.r1_languages, c13.r3_atoms, c13.r4_lengths):
+        for o in fn(ctx):
+            yield o
+
 RULES = [
     Rule('C02.R1', 'every index entry is selectable: whitelist, the map\'s own envelope code lists, BHT tuple', r1_selectable, floor=120),
     Rule('C02.R2', 'literal map paths in code resolve in every map they are applied to', r2_literal_paths, floor=30),
     Rule('C02.R3', 'recogniser dispatch covers every data type / format qualifier in the data', r3_dispatch_covers_data, floor=10),
     Rule('C02.R4', 'constant child indices of the segment matchers exist in every applicable segment node', r4_matcher_indices, floor=2000),
     Rule('C02.R5', 'walker counting/ordering atoms: limits, resets, pending-missing conditions, position filter', r5_walker_wiring, floor=16),
+    Rule('C02.R6', 'shared with C13.R1/R3/R4: the recognisers accept every value of the X12 value languages', r6_shared_recognisers, floor=45),
 ]
